@@ -1,7 +1,76 @@
-import Driver.Util
-open Lean
+import Driver.ProgJson
+import Heph.Model.Closed
+/-! Ops of property C05.
+
+* `closed.check`  `{<program export>, "keywords": [..], "stats": bool}` →
+  `{"r": "ok"}` | `{"r": {"path":…, "reason":…}}` (+ `"kinds": {kind: count}` when `stats`)
+* `closed.pool`   `{"initial": [..], "ops": [op…]}` → `{"r": [answer…], "words": [..], "initial": [..]}` where op is
+    `["word", choice]`            → the word | `"KeyError"` (choice not in the pool: never on a real run)
+    `["reset"]`                   → `null`
+    `["remove_reserved", [kw…]]`  → `null`
+    `["gen_identifier", mode, choice]` (mode `null | "lower" | "capitalize"`) → identifier | `"KeyError"`
+    `["caps", [sample…], [blacklist…]]` → the accepted sample | `null`
+-/
+open Lean Heph Heph.Scope
 namespace Driver.Closed
 
-def handle : Handler := fun _ _ => none
+def strList (j : Json) : Except String (List String) := do
+  (← j.getArr?).toList.mapM fun x => x.getStr?
+
+def poolStep (p : Pool.Pool) (op : Json) : Except String (Json × Pool.Pool) := do
+  let a ← op.getArr?
+  let tag ← (a[0]?.getD Json.null).getStr?
+  match tag with
+  | "word" =>
+    let c ← (a[1]?.getD Json.null).getStr?
+    match p.word c with
+    | some (w, p') => pure (Json.str w, p')
+    | none => pure (Json.str "KeyError", p)
+  | "reset" => pure (Json.null, p.reset)
+  | "remove_reserved" =>
+    let kw ← strList (a[1]?.getD Json.null)
+    pure (Json.null, p.removeReservedWords kw)
+  | "gen_identifier" =>
+    let mode ← match a[1]?.getD Json.null with
+      | .null => pure Pool.Mode.plain
+      | .str "lower" => pure Pool.Mode.lower
+      | .str "capitalize" => pure Pool.Mode.capitalize
+      | _ => throw "bad mode"
+    let c ← (a[2]?.getD Json.null).getStr?
+    match p.word c with
+    | some (w, p') => pure (Json.str (Pool.genIdentifier mode w), p')
+    | none => pure (Json.str "KeyError", p)
+  | "caps" =>
+    let samples ← strList (a[1]?.getD Json.null)
+    let bl ← strList (a[2]?.getD Json.null)
+    match Pool.caps samples bl with
+    | some s => pure (Json.str s, p)
+    | none => pure (Json.null, p)
+  | other => throw s!"unknown pool op {other}"
+
+def handle : Handler := fun op j =>
+  match op with
+  | "closed.check" => some (do
+      let (_, p) ← parseProgramObj j
+      let kw ← strList (← j.getObjVal? "keywords")
+      let r := match closedCheck p kw with
+        | .ok => Json.str "ok"
+        | .error path reason => Json.mkObj [("path", Json.str path), ("reason", Json.str reason)]
+      let stats := (j.getObjValD "stats") == Json.bool true
+      if stats then
+        let kinds := Json.mkObj ((countKinds p).map fun (k, n) => (k, Json.num (JsonNumber.fromNat n)))
+        pure (Json.mkObj [("r", r), ("kinds", kinds)])
+      else pure (res r))
+  | "closed.pool" => some (do
+      let init ← strList (← j.getObjVal? "initial")
+      let ops ← getArr j "ops"
+      let mut p : Pool.Pool := { initial := init, words := init }
+      let mut out : Array Json := #[]
+      for o in ops do
+        let (a, p') ← poolStep p o
+        out := out.push a
+        p := p'
+      pure (Json.mkObj [("r", Json.arr out), ("words", ofStrList p.words), ("initial", ofStrList p.initial)]))
+  | _ => none
 
 end Driver.Closed
